@@ -30,6 +30,7 @@ def run(ctx):
     c15_3(ctx)
     c15_4(ctx)
     c15_5(ctx)
+    c15_4b(ctx)
     from . import c15_verdict
     c15_verdict.run(ctx)
 
@@ -448,3 +449,22 @@ def _explicit_inf_effective(ctx, b, explicit):
     if good and n >= 1:
         return True, "is_inf accumulated into a captured flag that is negated into every non-false verdict"
     return False, ""
+
+
+def c15_4b(ctx):
+    """the infinity tests the verifiers rely on are the blst primitives on the point itself (projective coordinates: an
+    infinity reached by arithmetic has Z == 0 with arbitrary X, Y, so comparing X/Y against zero misses it)"""
+    from .. import apnf
+    from .. import paths as P
+    R = "C15.4"
+    for ty, mod_, prim in (("PublicKey", "public_key", "blst_p1_is_inf"), ("Signature", "signature", "blst_p2_is_inf")):
+        f = ctx.fb.fns.get("chia_bls::%s::%s::is_inf" % (mod_, ty))
+        if f is None:
+            if ty == "PublicKey":
+                ctx.missing(R, "is_inf:" + ty, "not found")
+            continue
+        b = Body(f, ctx.fb)
+        ctx.touched(b.path)
+        rows = {(ex[0], str(apnf.N(P.ret_of(ev))) if ex[0] == "return" else "", len(P.conds(ev))) for ev, ex in P.enumerate_paths(b)}
+        ctx.ob(R, "is_inf:" + ty, rows == {("return", "('%s', ('.0', 'self'))" % prim, 0)},
+               "%s::is_inf = %s(&self.0)" % (ty, prim), found=sorted(map(str, rows))[:2], where=f.sp)
